@@ -145,12 +145,66 @@ def conjGradForward (u : Update) (numIters : Nat) (stop : K → Bool) (lam : K) 
 
 end Blocks
 
+/-! ## The same physics re-implemented inside the unrolled models (phase 2)
+
+Extra operations some sites need on top of `Ops`. -/
+
+/-- `Ops` plus k-space addition, the complementary mask (`apply_mask(·, ~mask)`) and the coil-wise
+product with the conjugate image (`complex_multiplication(w, conjugate(x).unsqueeze(coil))`). -/
+structure OpsX (K : Type u) (V : Type v) (W : Type w) extends Ops K V W where
+  addW : W → W → W
+  maskC : W → W
+  mulConjVW : V → W → W
+
+section Sites
+variable {K : Type u} {V : Type v} {W : Type w} (o : Ops K V W)
+
+/-- `_forward_operator(image, mask, S)` of LPDNet / CrossDomainNetwork (XPDNet) / JointICNet /
+IterDualNet / MRIModelEngine, and the k-space update of KIKINet: `A x = M F E x`. -/
+def aOp (x : V) : W := o.mask (o.fwd (o.expand x))
+
+/-- soft data consistency in k-space of EndToEndVarNetBlock, RecurrentVarNetBlock, CIRIM:
+`where(mask == 0, 0, current_kspace − masked_kspace) = M (k − y)`. -/
+def softDC (k y : W) : W := o.mask (o.subW k y)
+
+/-- image-domain gradient step of IterDualNet and JointICNet:
+`_backward_operator(_forward_operator(x) − masked_kspace) = R Fb M (M F E x − y)` (data term masked
+by the adjoint only). -/
+def dcGradTwice (x : V) (y : W) : V := aStar o (o.subW (aOp o x) y)
+
+/-- gradient step of VSharpNet / VSharpNet3D:
+`reduce(backward(apply_mask(forward(expand x) − masked_kspace))) = R Fb M (F E x − y)` (one mask,
+after the subtraction). -/
+def dcGradAfter (x : V) (y : W) : V := o.reduce (o.bwd (o.mask (o.subW (o.fwd (o.expand x)) y)))
+
+/-- CIRIM's k-space output per time step: `masked_kspace − soft_dc − F E x`. -/
+def cirimKspace (x : V) (k y : W) : W := o.subW (o.subW y (softDC o k y)) (o.fwd (o.expand x))
+
+end Sites
+
+section SitesX
+variable {K : Type u} {V : Type v} {W : Type w} (ox : OpsX K V W)
+
+/-- hard data consistency of the SSL / VSharp engines:
+`kspace + _forward_operator(x, S, ~mask) = y + (1 − M) F E x`. -/
+def hardDC (x : V) (y : W) : W := ox.addW y (ox.maskC (ox.fwd (ox.expand x)))
+
+/-- JointICNet's gradient step for the sensitivity map:
+`backward(where(mask == 0, 0, _forward_operator(x) − y)) · conj(x)`. -/
+def sensGrad (x : V) (y : W) : W :=
+  ox.mulConjVW x (ox.bwd (ox.mask (ox.subW (aOp ox.toOps x) y)))
+
+end SitesX
+
 /-! ## Plans: the operator composition as data (filled in by the translator) -/
 
 /-- vocabulary of the straight-line tensor code of the two blocks -/
 inductive Op
   | param (i : Nat)      -- i-th input of the plan
   | expand | reduce | fwd | bwd | mask
+  | maskC                -- `apply_mask(·, ~mask)`
+  | mulConjV             -- `complex_multiplication(w, conjugate(x).unsqueeze(coil))`, args `[x, w]`
+  | pad                  -- `apply_padding(·, padding)`: identity for `padding = None`
   | add | sub            -- `+`, `-` (images or k-space)
   | mul                  -- `scalar * tensor` / `complex_multiplication(scalar, image)`
   | dot                  -- `complex_dot_product(a, b, dim)`
@@ -173,7 +227,7 @@ inductive Val (K : Type u) (V : Type v) (W : Type w)
   | k (a : K) | v (a : V) | w (a : W)
 
 section Eval
-variable {K : Type u} {V : Type v} {W : Type w} (o : Ops K V W)
+variable {K : Type u} {V : Type v} {W : Type w} (o : OpsX K V W)
 
 def evalNode (ps env : List (Val K V W)) (n : Node) : Option (Val K V W) :=
   match n.op, (n.args.map (fun i => env[i]?) : List (Option (Val K V W))) with
@@ -183,6 +237,10 @@ def evalNode (ps env : List (Val K V W)) (n : Node) : Option (Val K V W) :=
   | .fwd, [some (.w x)] => some (.w (o.fwd x))
   | .bwd, [some (.w x)] => some (.w (o.bwd x))
   | .mask, [some (.w x)] => some (.w (o.mask x))
+  | .maskC, [some (.w x)] => some (.w (o.maskC x))
+  | .mulConjV, [some (.v x), some (.w y)] => some (.w (o.mulConjVW x y))
+  | .pad, [some (.w x)] => some (.w x)
+  | .add, [some (.w a), some (.w b)] => some (.w (o.addW a b))
   | .add, [some (.v a), some (.v b)] => some (.v (o.addV a b))
   | .sub, [some (.v a), some (.v b)] => some (.v (o.subV a b))
   | .sub, [some (.w a), some (.w b)] => some (.w (o.subW a b))
